@@ -66,7 +66,7 @@ func init() {
 		MinDistinct: map[string]int{"quick": 15000, "thorough": 200000},
 		MinCounters: map[string]map[string]int64{
 			"quick": {
-				"decode_ok_json": 20000, "decode_ok_yaml": 20000, "decode_ok_toml": 20000, "decode_ok_cue": 20000,
+				"decode_ok_json": 20000, "decode_ok_yaml": 20000, "decode_ok_toml": 20000, "decode_ok_cue": 20000, "concurrent_direct_decodes_compared": 10000,
 				"leaves_compared": 600000, "absent_leaves_checked": 400000, "own_tag_leaves_compared": 150000,
 				"duration_ns_leaves_compared": 10000, "stacks_compared": 90000, "pairwise_compared": 130000,
 				"illtyped_judged": 90000, "malformed_judged": 55000, "decoys_rendered": 150000,
